@@ -1281,29 +1281,11 @@ impl App {
         }
         .wrap_err("failed to parse data items")?;
 
-        let mut all_events = if let Some(extended_commit_info_with_proof) =
-            &expanded_block_data.extended_commit_info_with_proof
-        {
-            let extended_commit_info = extended_commit_info_with_proof.extended_commit_info();
-            self.metrics.record_extended_commit_info_bytes(
-                extended_commit_info_with_proof
-                    .encoded_extended_commit_info()
-                    .len(),
-            );
-            let mut state_tx: StateDelta<Arc<StateDelta<Snapshot>>> =
-                StateDelta::new(self.state.clone());
-            vote_extension::apply_prices_from_vote_extensions(
-                &mut state_tx,
-                extended_commit_info,
-                finalize_block.time.into(),
-                finalize_block.height.value(),
-            )
-            .await
-            .wrap_err("failed to apply prices from vote extensions")?;
-            self.apply(state_tx)
-        } else {
-            vec![]
-        };
+        // The prices of the extended commit info are applied once the block's transactions have
+        // been executed (just below, or earlier during the proposal phase), so that every node
+        // applies both in the same order regardless of the calls it received before.
+        let extended_commit_info_with_proof =
+            expanded_block_data.extended_commit_info_with_proof.clone();
 
         // FIXME: refactor to avoid cloning the finalize block
         let finalize_block_arc = Arc::new(finalize_block.clone());
@@ -1387,6 +1369,31 @@ impl App {
             .await
             .wrap_err("failed to run post execute transactions handler")?;
         }
+
+        let mut all_events = if let Some(extended_commit_info_with_proof) =
+            &extended_commit_info_with_proof
+        {
+            let extended_commit_info = extended_commit_info_with_proof.extended_commit_info();
+            self.metrics.record_extended_commit_info_bytes(
+                extended_commit_info_with_proof
+                    .encoded_extended_commit_info()
+                    .len(),
+            );
+            let mut state_tx: StateDelta<Arc<StateDelta<Snapshot>>> =
+                StateDelta::new(self.state.clone());
+            vote_extension::apply_prices_from_vote_extensions(
+                &mut state_tx,
+                extended_commit_info,
+                finalize_block.time.into(),
+                finalize_block.height.value(),
+            )
+            .await
+            .wrap_err("failed to apply prices from vote extensions")?;
+            self.apply(state_tx)
+        } else {
+            vec![]
+        };
+
 
         let PostTransactionExecutionResult {
             events,
